@@ -23,13 +23,13 @@ claim("C01", "other",
       "Decides structural necessary conditions of crash atomicity/durability on every path of the current source: success replies only after a synchronous commit whose result steers the status (R1), a single commit funnel that writes bitmap bits before the durability point (R2), complete allocation bookkeeping with the right polarity (R3), no raw disk access behind the journal after recovery (R4), format order (R5), self-contained shrink transactions (R6), no operation through a finished transaction, the WRITE stability dispatch and COMMIT flush (R8, R9 = C07.U2/U1), disk decorators delegating every operation incl. Barrier (R10). It does not decide that the recovered state equals a prefix of the history - that needs the disk trace and the journal's own correctness.",
       "must-pass-through / who-may-call / typestate over go/ssa + VTA call graph", "DESIGN.md section 3 C01")
 claim("C03", "other",
-      "Decides the strict two-phase-locking discipline: cached inodes are used only inside their lock's critical section (T1), locks are released only after the commit point and only at frozen early-release sites (T2), abort-and-relock sites revalidate generation and name (T3), the inode-cache slot is looked up only under the inode lock (T4), an aborting transaction drops the cached inodes it modified before it unlocks (T5), NOENT only where a lookup found nothing (T6). Does not decide the existence of a linearization for a history.",
+      "Decides the strict two-phase-locking discipline: cached inodes are used only inside their lock's critical section (T1), locks are released only after the commit point and only at frozen early-release sites (T2), abort-and-relock sites revalidate generation and name (T3), the inode-cache slot is looked up only under the inode lock (T4), an aborting transaction drops the cached inodes it modified before it unlocks (T5), NOENT only where a lookup found nothing (T6), a re-locked inode is read from the committed state, not from the transaction's own buffers (T7). Does not decide the existence of a linearization for a history.",
       "transaction typestate (ESP-style) + must-precede over go/ssa", "DESIGN.md section 3 C03")
 claim("C04", "other",
       "Decides co-update disciplines that keep the on-disk structure well-formed: pointer/bitmap/inode co-update through the commit funnel (S1), name and link co-update (S2), link-count balance across inverse operations (S3), emptiness check before directory unlink (S4), range assertion on pointer-producing paths (S5), only regular files have client-settable content/size (S7), cache slots only under the lock (S8). Not the invariant on any concrete state.",
       "pairing / who-writes / guard dominance over go/ssa", "DESIGN.md section 3 C04")
 claim("C05", "other",
-      "Decides structural conditions of full reclamation: truncate-before-free and shrinker start (F1), allocator epilogues exactly at commit/abort (F2), no double return (F3), no resize of a half-freed inode (F4), link-count balance (F5), shrinker accounting (F6), index blocks released with their first slot and Shrink results handed on (F8, F1), refused commits undone (F9), no index block linked without a data block (F10). Not the arithmetic of Shrink/indshrink.",
+      "Decides structural conditions of full reclamation: truncate-before-free and shrinker start (F1), allocator epilogues exactly at commit/abort (F2), no double return (F3), no resize of a half-freed inode (F4), link-count balance (F5), shrinker accounting (F6), index blocks released with their first slot and Shrink results handed on (F8, F1), refused commits undone (F9), no index block linked without a data block (F10), no stale inode copy after an early release (F12). Not the arithmetic of Shrink/indshrink.",
       "must-precede / must-use-result / who-may-call over go/ssa", "DESIGN.md section 3 C05")
 claim("C06", "other",
       "Lock-order analysis of every inode-lock acquisition site reachable from any entry point: each nested acquisition must match an ordering idiom (guarded ascending, sorted loop, allocator-fresh, owned); every transaction ends exactly once on every path; no foreign transaction under locks; mutex pairing; nothing held across retry iterations; every terminator releases all locks on every path (L5). Termination of retry loops is not decided.",
